@@ -59,6 +59,10 @@ let pyobj_of = function
       po_str = str_atom st; po_iso_date = str_atom isod; po_iso_ts = str_atom isot; po_json = jres_of j }
   | x -> failwith ("bad pyobj " ^ to_string x)
 
+(* document identifiers are 2 * (data class) + (root style bit); delivered documents are compared
+   by data class only (what the dump reloads to) *)
+let data_class_s n = let i = int_of_nat n in A ("i" ^ string_of_int (i - (i land 1)))
+
 let status_s = function
   | Exit n -> L [A "exit"; nat_s n]
   | Uncaught u -> L [A "uncaught"; ufam_s u]
@@ -70,10 +74,10 @@ let line_s = function
   | OValid (f, i) -> L [A "valid"; s f; nat_s i]
   | OInvalid (f, i) -> L [A "invalid"; s f; nat_s i]
   | OPath (p, j) -> L [A "path"; s p; (match j with None -> A "none" | Some i -> L [A "some"; nat_s i])]
-  | ODump (j, ds) -> L [A "dump"; bs j; L (List.map nat_s ds)]
+  | ODump (j, ds) -> L [A "dump"; bs j; L (List.map data_class_s ds)]
 let effect_s = function
   | EBackup -> A "backup"
-  | EWrite (j, ds) -> L [A "write"; bs j; L (List.map nat_s ds)]
+  | EWrite (j, ds) -> L [A "write"; bs j; L (List.map data_class_s ds)]
 let run_s (r : crun) : t =
   L [A "run"; status_s r.r_status; L (List.map line_s r.r_out); L (List.map effect_s r.r_fx)]
 
@@ -83,16 +87,22 @@ let table1 (name : string) (conv : t -> 'a) (tbl : t) : nat -> 'a =
   let items = list_of (function L [k; v] -> (int_atom k, conv v) | x -> failwith ("bad table item " ^ to_string x)) tbl in
   fun k -> let i = int_of_nat k in
     (try List.assoc i items with Not_found -> raise (Miss (name ^ " " ^ string_of_int i)))
+(* the second key (the right-hand document of a merge) is looked up by data class: its root
+   style is irrelevant to the glue and is changed by the merge itself *)
 let table2 (name : string) (conv : t -> 'a) (tbl : t) : nat -> nat -> 'a =
   let items = list_of (function L [k1; k2; v] -> ((int_atom k1, int_atom k2), conv v)
                                 | x -> failwith ("bad table item " ^ to_string x)) tbl in
-  fun a b -> let i = (int_of_nat a, int_of_nat b) in
+  fun a b -> let i = (int_of_nat a, (let r = int_of_nat b in r - (r land 1))) in
     (try List.assoc i items with Not_found ->
        raise (Miss (name ^ " " ^ string_of_int (fst i) ^ " " ^ string_of_int (snd i))))
 
 let daction_of = function
   | A "add" -> DAdd | A "change" -> DChange | A "delete" -> DDelete | A "same" -> DSame
   | x -> failwith ("bad action " ^ to_string x)
+let dentry_of = function
+  | L [a; A "renders"] -> (daction_of a, None)
+  | L [a; L [A "raises"; u]] -> (daction_of a, Some (ufam_of u))
+  | x -> failwith ("bad entry " ^ to_string x)
 
 let docfmt_of = function A "auto" -> FAuto | A "yaml" -> FYaml | A "json" -> FJson | x -> failwith ("bad fmt " ^ to_string x)
 let mode_of = function
@@ -139,7 +149,7 @@ let handle (cmd : string) (args : t list) : t option =
                 da_onlysame = bool_of_sym onlysame; da_config = bool_of_sym config; da_config_ok = bool_of_sym config_ok;
                 da_priv = bool_of_sym priv; da_priv_ok = bool_of_sym priv_ok; da_pub = bool_of_sym pub;
                 da_pub_ok = bool_of_sym pub_ok; da_left = opt_of z_atom left; da_right = opt_of z_atom right } in
-      let r = diff_main (nat_atom estr) a (source_of ls) (source_of rs) (lres_of (list_of daction_of) report) in
+      let r = diff_main (nat_atom estr) a (source_of ls) (source_of rs) (lres_of (list_of dentry_of) report) in
       (match run_s r.dr_run with
        | L items ->
          Some (L (items @ [match r.dr_picked with
